@@ -253,12 +253,24 @@ class ConcatenateEval(LibModel):
     def f_defaultdict(self, eng, st, args, kwargs, node):
         st = st.clone()
         st.ghost['acc'] = z3.Empty(ValSeq)
+        st.ghost['own_key'] = z3.BoolVal(False)      # does the dict of lists have an entry under the node's own id?
         return [(st, Obj('listdict'))]
 
     def subscript(self, eng, st, recv, k):
         if isinstance(recv, Obj) and recv.kind == 'listdict':
             ki = eng.as_int(k)
+            # reading a key of a defaultdict(list) creates it
+            st = st.clone()
+            st.ghost['own_key'] = z3.Or(st.ghost['own_key'], ki == Z.nid(self.n))
             return [(st, Obj('acclist', {'key': ki}))]
+        return None
+
+    def setitem(self, eng, st, recv, k, v):
+        if isinstance(recv, Obj) and recv.kind == 'listdict' and isinstance(v, Lst) and not v.items:
+            # all_values[key] = []  (an explicit empty entry)
+            st = st.clone()
+            st.ghost['own_key'] = z3.Or(st.ghost['own_key'], eng.as_int(k) == Z.nid(self.n))
+            return [st]
         return None
 
     def obj_acclist_extend(self, eng, st, recv, args, kwargs, node):
@@ -305,9 +317,11 @@ class ConcatenateEval(LibModel):
             m = b.dicts[row.ref]
             b.assume(m.contains(Z.nid(c)), Z.hv_value(m.get(Z.nid(c))) == row_val(i), z3.Not(m.contains(Z.nid(self.n))))
             outs = []
+            iteration_exits = []
             for b2 in eng.assign(s.target, row, b):
                 for o in eng.exec_block(s.body, b2):
                     if o.sig in (NEXT, CONTINUE):
+                        iteration_exits.append(o)
                         eng.oblige(o.st, "C17/acc/invariant-preserved", o.st.ghost['acc'] == CAT(i + 1),
                                    hyp=[CAT(i + 1) == z3.Concat(CAT(i), unwrap(row_val(i)))], line=s.lineno)
                     elif o.sig == BREAK:
@@ -318,6 +332,10 @@ class ConcatenateEval(LibModel):
             n_rows = z3.Const('n_rows', Z.I)
             e.assume(n_rows >= 0)
             e.ghost['acc'] = CAT(n_rows)
+            # the own entry exists if it existed before the loop or some iteration created it (every row binds the child:
+            # whether an iteration creates it was recorded on the iteration's exits)
+            created = [o_.st.ghost['own_key'] for o_ in iteration_exits]
+            e.ghost['own_key'] = z3.Or(st.ghost['own_key'], z3.And(n_rows > 0, z3.And(*created) if created else z3.BoolVal(False)))
             e.ghost['after_loop'] = True
             outs.append(Outcome(e))
             return outs
@@ -378,6 +396,8 @@ class ConcatenateEval(LibModel):
         eng.oblige(st, f"C17/row@yield#{ordinal}/value-is-the-concatenation-of-all-child-values-in-order",
                    v.data['own'] == listval(CAT(z3.Const('n_rows', Z.I))), line=node.lineno)
         eng.oblige(st, f"C17/row@yield#{ordinal}/exactly-one-row", z3.BoolVal(st.ghost['yields'] == 1), line=node.lineno)
+        # ... and the row binds the node to it, also when the child delivered no row at all (the value is then the empty list)
+        eng.oblige(st, f"C17/row@yield#{ordinal}/row-binds-the-node-also-for-an-empty-child-stream", st.ghost['own_key'], line=node.lineno)
         eng.oblige(st, f"cover@yield#{ordinal}", z3.BoolVal(True), kind='cover', line=node.lineno)
         return [st]
 
